@@ -434,6 +434,25 @@ pub fn run_fmachine(a: &Args, out: &mut Out) {
             // inject a designated Montgomery-boundary pair (TLC-generated) into two registers and combine them; the
             // results stay in the register file and are used by the random operations that follow
             let fr_turn = tick % 16 == 0;
+            if tick % 24 == 0 {
+                // a TLC-generated square-family value (V-boundary / zero quotient digit) into a register, then squared through pow
+                let fq_turn = tick % 48 == 0 && !poolq.vsq.is_empty();
+                let two = [2u8];
+                if fq_turn {
+                    let v = poolq.vsq[rng.gen_range(0..poolq.vsq.len())].clone();
+                    let (i, j, d) = (2usize, 3usize, rng.gen_range(0..NF));
+                    out.call("mf", json!({"T": "Fq", "d": FQB + i, "fn": "from_slice", "in": b(&v), "via": "from_slice"}), || { fq[i] = Fq::from_slice(&v); f_obs!(fq, FQB, i) });
+                    out.call("mf", json!({"T": "Fq", "d": FQB + j, "fn": "from_slice", "in": b(&two), "via": "from_slice"}), || { fq[j] = Fq::from_slice(&two); f_obs!(fq, FQB, j) });
+                    out.call("mf", json!({"T": "Fq", "d": FQB + d, "fn": "pow", "a": FQB + i, "b": FQB + j}), || { fq[d] = Some(fq[i].unwrap().pow(fq[j].unwrap())); f_obs!(fq, FQB, d) });
+                } else if !poolr.vsq.is_empty() {
+                    let v = poolr.vsq[rng.gen_range(0..poolr.vsq.len())].clone();
+                    let (i, j, d) = (2usize, 3usize, rng.gen_range(0..NF));
+                    out.call("mf", json!({"T": "Fr", "d": FRB + i, "fn": "from_slice", "in": b(&v), "via": "from_slice"}), || { fr[i] = Fr::from_slice(&v); f_obs!(fr, FRB, i) });
+                    out.call("mf", json!({"T": "Fr", "d": FRB + j, "fn": "from_slice", "in": b(&two), "via": "from_slice"}), || { fr[j] = Fr::from_slice(&two); f_obs!(fr, FRB, j) });
+                    out.call("mf", json!({"T": "Fr", "d": FRB + d, "fn": "pow", "a": FRB + i, "b": FRB + j}), || { fr[d] = Some(fr[i].unwrap().pow(fr[j].unwrap())); f_obs!(fr, FRB, d) });
+                }
+                continue;
+            }
             if fr_turn {
                 let (xa, xb) = poolr.pairs[rng.gen_range(0..poolr.pairs.len())].clone();
                 let (i, j, d) = (0usize, 1usize, rng.gen_range(0..NF));
